@@ -316,7 +316,7 @@ func isNullish(src interface{}) bool {
 	case reflect.Int:
 		return math.IsNaN(float64(value.Int()))
 	case reflect.Float32, reflect.Float64:
-		return math.IsNaN(float64(value.Float()))
+		return math.IsNaN(float64(value.Float())) || math.IsInf(float64(value.Float()), 0)
 	}
 	return false
 }
